@@ -25,14 +25,18 @@ def generate(rng, tier, idx):
     if have_good:
         ops.append(kit.dump_op(K, rng))
         ops.append(kit.mutation(K, rng))
-    ops.append({"op": "c18_enum", "path": path, "cap": 64 if tier == "quick" else None})
+    enum = {"op": "c18_enum", "path": path, "cap": 64 if tier == "quick" else None}
+    mv = kit.dump_op(K, rng, main_variant="random").get("main_variant")     # TreeInfo.dump has its own main_variant path
+    if mv is not None:
+        enum["main_variant"] = mv
+    ops.append(enum)
     sites = kit.sites(K)
     for _ in range(rng.randint(1, 4)):
         p, h = kit.poison(pick(rng, sites))
         ops.append(kit.mutation(K, rng))
         ops.append(p)
-        ops.append({"op": "dump", "path": path})
+        ops.append(kit.dump_op(K, rng, main_variant="random"))
         ops.append(h)
-        ops.append({"op": "dump", "path": path})
+        ops.append(kit.dump_op(K, rng, main_variant="random"))
     ops.append({"op": "restart", "path": path, "via": pick(rng, ["path", "handle", "loads"]), "offset": rng.randint(0, 500)})
     return {"machine": kit.machine, "cfg": kit.cfg(rng), "ops": ops}
